@@ -396,6 +396,9 @@ def trace_stage(ctx, fatal, n_quick=120, n_thorough=1200, suites=None, id_modes=
                               replay_obj=rp)
             else:
                 ctx.drift += 1
+                dk = f"{what}:{op}:{key}"
+                ctx.cov.setdefault("drift_keys", {})
+                ctx.cov["drift_keys"][dk] = ctx.cov["drift_keys"].get(dk, 0) + 1
 
     # 1. two witnesses, validated exactly against the Alg specification
     wits = []
@@ -618,6 +621,46 @@ def taproot_stage(ctx):
         ctx.cov["samples"].append({k: v for k, v in ev[1].items() if k != "faults"})
 
 
+def fuzz_stage(ctx):
+    """C14 (bytes): every decoder of every suite under valid, deviated, structure-aware mutated and random
+    inputs; TLC checks the trace for the no-panic law (the other codec laws belong to C12)."""
+    d = os.path.join(ctx.dir, "fuzz")
+    os.makedirs(d, exist_ok=True)
+    heavy = "--heavy" if ctx.tier == "thorough" else ""
+    total = nontrivial = 0
+    for suite, q in [("toy", 251)] + [(s, None) for s in REAL_SUITES]:
+        seeds = [ctx.seed, ctx.seed + 1000] if ctx.tier == "thorough" else [ctx.seed]
+        for sd in seeds:
+            ep = os.path.join(d, f"{suite}.ndjson")
+            rc, o, e = sh(f"{FV} codec --suite {suite} {'--q %d' % q if q else ''} --seed {sd} {heavy} --fuzz --events {ep}", cwd=d,
+                          timeout=3000)
+            if rc != 0 or "SUMMARY" not in o:
+                raise ToolError(f"fv codec --fuzz failed for {suite}: {o[-400:]} {e[-400:]}")
+            n_ev, bad = run_trace_tlc(d, "TraceCodec", ep, q=q or 7, doms=False, timeout=3000)
+            ev = load_events(ep)
+            total += n_ev
+            nontrivial += sum(1 for x in ev if x.get("op") == "dec" and x.get("tag") != "valid")
+            panics = [(l, ty, law) for (l, ty, law) in bad if law == "panic"]
+            log(f"[{ctx.pid}] decoders {suite} seed {sd}: {n_ev} inputs, {len(panics)} panics")
+            seen = set()
+            for (line, ty, law) in panics:
+                x = ev[line - 1]
+                key = f"{ctx.pid}:{suite}:decode:{ty}:panic"
+                if key in seen:
+                    continue
+                seen.add(key)
+                ctx.violation(key, f"decoder panic: {suite} {ty} on input {json.dumps(x.get('input'))[:300]}",
+                              replay_obj={"suite": suite, "seed": sd, "event": x})
+            if len(ctx.cov["samples"]) < 5:
+                muts = [x for x in ev if x.get("tag") == "mutated"][:1]
+                if muts:
+                    ctx.cov["samples"].append({"suite": suite, "decoder_input": muts[0]})
+            os.remove(ep)
+    ctx.cov["decoder_inputs"] = total
+    ctx.cov["decoder_inputs_nontrivial"] = nontrivial
+    ctx.cov["trace_events_validated"] += total
+
+
 def assume_stage(ctx, name, module, consts, timeout=900):
     """Constant-level obligations (ASSUMEs) decided by TLC; no behaviours, no replay."""
     d = os.path.join(ctx.dir, name)
@@ -677,6 +720,10 @@ def finish(ctx, level, text_rule, assumptions, extra_cov=None):
             new.append(v)
     cov = dict(ctx.cov)
     cov["drift"] = ctx.drift
+    # exploration-style counts, measured on this run
+    cov["evaluations"] = int(cov.get("replayed_steps", 0) + cov.get("trace_events_validated", 0))
+    cov["distinct_nontrivial"] = int(cov.get("replayed_scripts", 0) + cov.get("decoder_inputs_nontrivial", 0)
+                                     + cov.get("real_suite_runs", 0) + cov.get("lifecycle_cases", 0))
     cov["rule"] = text_rule
     if extra_cov:
         cov.update(extra_cov)
